@@ -700,8 +700,10 @@ def spaces(quick: bool) -> list[dict]:
              entry_args=(1,), other_args=(0,), terms=("T0", "T1")),
         dict(name="effects-graph", container="graph", leaf=eff, inner_leaf=inner, max_inner=2, max_ops=3),
         # CFG shapes: unreachable blocks, uses from unreachable blocks, cycles through block arguments
+        # (greedy-once, the first sweep of greedy, is left to the one-block spaces)
         dict(name="cfg", container="cfg", leaf=cfg, inner_leaf=(), max_inner=0, max_blocks=3, max_ops=4,
-             entry_args=(0,), other_args=(0, 1), terms=TERMS),
+             entry_args=(0,), other_args=(0, 1), terms=TERMS,
+             entries=("dce-pass", "region_dce", "dce-fn", "greedy", "canonicalize")),
         # the same effect/use-chain programs inside a NESTED builtin.module (graph region below the root: forward
         # references and use cycles that need several liveness sweeps of a nested region)
         dict(name="effects-ngraph", container="ngraph", leaf=eff, inner_leaf=inner, max_inner=2, max_ops=3),
